@@ -316,6 +316,9 @@ func specLayersOK(p *FrameParser) bool {
 //@ requires[pre.nonnil]      a != nil && a.sock != nil
 //@ ensures[C09.afp.io]       ret1 != nil ==> ncalls("(*File).Read") > old(ncalls("(*File).Read")) && ret1 == lastres("(*File).Read", 1)
 //@ ensures[C09.afp.len]      0 <= ret0 && ret0 <= len(buf)
+// a frame that carries no IP bytes at all (an ethernet header and nothing else) is skipped like any other non-packet:
+// Read never reports "0 bytes, no error", which ReadAndParse treats as a fatal source failure
+//@ ensures[C09.afp.nonempty] ret1 == nil ==> ret0 > 0
 //@ ensures[C09.afp.exterr]   ret1 != nil ==> noRepoErr(ret1)
 //@ loop 1 invariant[calls]   ncalls("(*File).Read") >= old(ncalls("(*File).Read"))
 //@ loop 1 invariant[within]  payload != nil ==> len(payload) <= len(buf)
